@@ -1,0 +1,34 @@
+//go:build verif
+
+package raft
+
+// VerifStats is the replication state of one node as the raft library reports it.
+type VerifStats struct {
+	State    string // Leader, Follower, Candidate, Shutdown
+	Applied  uint64 // index of the last entry handed to the state machine
+	Last     uint64 // index of the last entry in this node's log
+	LeaderID string
+	Voters   int // servers in the latest configuration
+}
+
+// VerifStats reads the node's replication state.
+func (r *Raft) VerifStats() VerifStats {
+	st := VerifStats{State: r.raft.State().String(), Applied: r.raft.AppliedIndex(), Last: r.raft.LastIndex()}
+	_, id := r.raft.LeaderWithID()
+	st.LeaderID = string(id)
+	if f := r.raft.GetConfiguration(); f.Error() == nil {
+		st.Voters = len(f.Configuration().Servers)
+	}
+	return st
+}
+
+// VerifTransfer asks the leader to hand leadership to another voter.
+func (r *Raft) VerifTransfer() error { return r.raft.LeadershipTransfer().Error() }
+
+// VerifBarrier waits until every entry committed so far has been applied on this node (leader only).
+func (r *Raft) VerifBarrier() error { return r.raft.Barrier(0).Error() }
+
+// VerifStop stops the raft node for good (the public shutdown path only transfers leadership).
+func (r *Raft) VerifStop() error {
+	return r.raft.Shutdown().Error()
+}
